@@ -30,6 +30,15 @@ def cells(tier):
             sc = scen(pool(size), [[A("A", 3)], [cancel(rid("A", 0))], [fl]], outcomes=["ret", "exc"], ecb="plain", ccb="slow", slow_ids=[0])
             out.append(cell(f"s{size} A3 cancel0 {fl} slowccb0 ret/exc", sc, MON))
     for size in [1, 2]:
+        # a raising cancel callback; the caller of a pending flush() being cancelled (wait_for timeout)
+        for cbn, cb in {"ccb-raise": dict(ecb="plain", ccb="raise", slow_ids=[0]), "ccb-araise": dict(ecb="coro", ccb="araise", slow_ids=[0, 1])}.items():
+            sc = scen(pool(size), [[A("A", 2)], [cancel(rid("A", 0))], [CALL]], outcomes=["ret"], **cb)
+            out.append(cell(f"s{size} A2 cancel0 call {cbn}", sc, MON))
+        sc = scen(pool(size), [[A("A", 2)], [cancel(rid("A", 0))], [FLUSH], [["cancel_op", 2]]], outcomes=["ret"], ecb="slow", ccb="slow", slow_ids=[0])
+        out.append(cell(f"s{size} A2 cancel0 flush flush-caller-cancelled slowcbs", sc, MON))
+        sc = scen(pool(size), [[A("A", 2)], [FLUSH], [["cancel_op", 1]]], outcomes=["ret", "exc"], ecb="slow", ccb="plain", slow_ids=[0, 1])
+        out.append(cell(f"s{size} A2 flush flush-caller-cancelled slowecb", sc, MON))
+    for size in [1, 2]:
         for dn, da in {
             "stop1": [[["stop", 1]]],
             "stopall+flush": [[["stop_all"]], [FLUSH]],
